@@ -15,7 +15,7 @@ import itertools
 import glom as G
 from glom import (glom, T, S, Coalesce, Call, Invoke, Check, Match, Fold, Merge, Iter, Assign, Delete, Glommer, Or, And, Switch, Val, Spec, M, Auto, Fill,
                   GlomError, PathAccessError, CoalesceError, UnregisteredTarget, BadSpec, CheckError, MatchError, TypeMatchError, FoldError,
-                  PathAssignError, PathDeleteError, Path, A)
+                  PathAssignError, PathDeleteError, Path, A, Pipe)
 from glom.grouping import Group
 
 from ..engine import R, Sub
@@ -597,50 +597,83 @@ def gen_bound2(tier):
 # failures detected by glom itself
 
 def table():
+    """(name, target, spec, documented class) - failures that glom itself detects"""
+    from glom.grouping import Limit
     return [
-        ('missing-path', lambda: glom({}, 'a.b'), PathAccessError),
-        ('missing-t-attr', lambda: glom({}, T.zz), PathAccessError),
-        ('no-coalesce-alternative', lambda: glom({}, Coalesce('a', 'b')), CoalesceError),
-        ('non-iterable-in-list-spec', lambda: glom(5, ['a']), UnregisteredTarget),
-        ('bad-spec-type', lambda: glom({}, 3.5), TypeError),
-        ('check', lambda: glom(3, Check(type=str)), CheckError),
-        ('match', lambda: glom(3, Match('a')), MatchError),
-        ('match-type', lambda: glom(3, Match(str)), TypeMatchError),
-        ('m-comparison', lambda: glom(3, M > 5), MatchError),
-        ('switch-no-case', lambda: glom(3, Switch([(M > 5, Val(1))])), MatchError),
-        ('fold-non-iterable', lambda: glom(5, Fold(T, init=int)), FoldError),
-        ('assign-missing-prefix', lambda: glom({}, Assign('a.b', 1)), PathAccessError),
-        ('assign-out-of-range', lambda: glom({'l': [1]}, Assign('l.5', 1)), PathAssignError),
-        ('assign-unregistered', lambda: glom({'t': (1,)}, Assign('t.0', 1)), UnregisteredTarget),
-        ('delete-missing-key', lambda: glom({'a': {}}, Delete('a.zz')), PathDeleteError),
-        ('delete-missing-parent', lambda: glom({}, Delete('a.zz')), PathAccessError),
-        ('a-without-destination', lambda: glom(1, A), BadSpec),
-        ('group-bad-spec', lambda: glom([1], Group('x')), BadSpec),
-        ('limit-outside-group', lambda: glom([1], __import__('glom.grouping', fromlist=['Limit']).Limit(1)), BadSpec),
-        ('scope-miss', lambda: glom(1, S['nope']), PathAccessError),
+        ('missing-path', {}, 'a.b', PathAccessError),
+        ('missing-t-attr', {}, T.zz, PathAccessError),
+        ('missing-key-in-item', {'b': 1}, 'a', PathAccessError),
+        ('no-coalesce-alternative', {}, Coalesce('a', 'b'), CoalesceError),
+        ('non-iterable-in-list-spec', 5, ['a'], UnregisteredTarget),
+        ('bad-spec-type', {}, 3.5, TypeError),
+        ('check', 3, Check(type=str), CheckError),
+        ('match', 3, Match('a'), MatchError),
+        ('match-type', 3, Match(str), TypeMatchError),
+        ('m-comparison', 3, M > 5, MatchError),
+        ('switch-no-case', 3, Switch([(M > 5, Val(1))]), MatchError),
+        ('fold-non-iterable', 5, Fold(T, init=int), FoldError),
+        ('assign-missing-prefix', {}, Assign('a.b', 1), PathAccessError),
+        ('assign-out-of-range', {'l': [1]}, Assign('l.5', 1), PathAssignError),
+        ('assign-unregistered', {'t': (1,)}, Assign('t.0', 1), UnregisteredTarget),
+        ('delete-missing-key', {'a': {}}, Delete('a.zz'), PathDeleteError),
+        ('delete-missing-parent', {}, Delete('a.zz'), PathAccessError),
+        ('a-without-destination', 1, A, BadSpec),
+        ('group-bad-spec', [1], Group('x'), BadSpec),
+        ('limit-outside-group', [1], Limit(1), BadSpec),
+        ('scope-miss', 1, S['nope'], PathAccessError),
     ]
 
 
-def run_table(idx):
-    name, fn, cls = table()[idx]
+def ident(x):
+    return x
+
+
+# positions in which the failing spec is evaluated: (name, target builder, spec builder); none of them converts the error
+CONTEXTS = [
+    ('top-level', lambda t: t, lambda f: f),
+    ('after-a-chain-step', lambda t: {'w': t}, lambda f: ('w', f)),
+    ('after-two-chain-steps', lambda t: {'w': {'v': t}}, lambda f: ('w', 'v', f)),
+    ('pipe-step', lambda t: {'w': t}, lambda f: Pipe('w', f)),
+    ('dict-value', lambda t: t, lambda f: {'k': f}),
+    ('list-item', lambda t: [t], lambda f: [f]),
+    ('list-item-after-chain-step', lambda t: {'w': [t]}, lambda f: ('w', [f])),
+    ('spec-wrapper', lambda t: t, lambda f: Spec(f)),
+    ('auto-in-fill', lambda t: t, lambda f: Fill([Auto(f)])),
+    ('iter-map-all', lambda t: [t], lambda f: Iter().map(f).all()),
+    ('iter-map-all-after-chain-step', lambda t: {'w': [t]}, lambda f: ('w', Iter().map(f).all())),
+    ('first-key', lambda t: [t], lambda f: Iter().first(key=f)),
+    ('first-key-after-chain-step', lambda t: {'w': [t]}, lambda f: ('w', Iter().first(key=f))),
+    ('call-argument', lambda t: t, lambda f: Call(ident, args=(Spec(f),))),
+    ('invoke-specs', lambda t: t, lambda f: Invoke(ident).specs(f)),
+    ('coalesce-then-no-default', lambda t: t, lambda f: Coalesce(f, skip_exc=KeyboardInterrupt)),
+    ('and-child', lambda t: t, lambda f: Auto(And(T, f)) if False else And(f)),
+    ('switch-value', lambda t: t, lambda f: Switch([(T, f)]) if False else Switch([(Val(1), f)])),
+    ('callable-calling-glom', lambda t: t, lambda f: (lambda x: glom(x, f))),
+]
+
+
+def run_table(case):
+    idx, cidx = case
+    name, target, spec, cls = table()[idx]
+    cname, wrap_t, wrap_s = CONTEXTS[cidx]
+    import copy as _copy
     outs = []
     for kw in ({}, {'default': DEFAULT}, {'glom_debug': True}):
         try:
-            # rebuild the call with kwargs: the lambdas call glom without kwargs, so patch through a wrapper
-            res = _call_with(fn, kw)
+            res = G.glom(wrap_t(_copy.deepcopy(target)), wrap_s(spec), **kw)
             outs.append(('returned', res))
         except Exception as e:
             outs.append(('raised', e))
     plain, dflt, dbg = outs
+    where = {'failure': name, 'context': cname, 'spec': repr(wrap_s(spec))[:200]}
     if plain[0] != 'raised' or not isinstance(plain[1], cls) or not isinstance(plain[1], GlomError):
-        return R({'expected': '%s (a GlomError)' % cls.__name__, 'observed': repr(plain), 'name': name}, name)
-    if issubclass(cls, GlomError) or name == 'bad-spec-type':
-        want_default = issubclass(cls, GlomError)
-        if want_default and (dflt[0] != 'returned' or dflt[1] is not DEFAULT):
-            return R({'expected': 'default returned for a GlomError', 'observed': repr(dflt), 'name': name}, name)
+        return R({'expected': '%s (a GlomError)' % cls.__name__, 'observed': repr(plain), **where}, name)
+    if issubclass(cls, GlomError) and cname != 'callable-calling-glom':
+        if dflt[0] != 'returned' or dflt[1] is not DEFAULT:
+            return R({'expected': 'default returned for a GlomError', 'observed': repr(dflt), **where}, name)
     if dbg[0] != 'raised' or not isinstance(dbg[1], cls):
-        return R({'expected': '%s with glom_debug' % cls.__name__, 'observed': repr(dbg), 'name': name}, name)
-    return R(None, name, steps=3)
+        return R({'expected': '%s with glom_debug' % cls.__name__, 'observed': repr(dbg), **where}, name)
+    return R(None, name, steps=3, tags={cname})
 
 
 def _call_with(fn, kw):
@@ -718,8 +751,10 @@ def subs(tier, only=None):
             rule='case = (absorbing construct, first exception shape, second exception shape, kwargs): the first fault is absorbed (when its class is '
                  'absorbed by the construct), the second must obey the pass-through rules',
             min_nontrivial=500, min_outcomes=2),
-        Sub('glom-detected', list(range(len(table()))), run_table,
-            rule='table of failures glom detects itself -> documented GlomError subtype, default honoured, glom_debug keeps the class',
-            min_nontrivial=15, min_outcomes=15, parallel=False),
+        Sub('glom-detected', [[i, c] for i in range(len(table())) for c in range(len(CONTEXTS))], run_table,
+            rule='case = (one of 21 failures that glom detects itself, one of 19 positions in which the failing spec is evaluated: chain step, dict value, '
+                 'list item, Iter().map, key of first(), call argument, callable calling glom, ...): the documented GlomError subtype leaves glom(), '
+                 'default= is honoured, glom_debug keeps the class',
+            min_nontrivial=300, min_outcomes=15, required_tags=['top-level', 'first-key-after-chain-step', 'iter-map-all', 'call-argument']),
     ]
     return [s for s in out if only in (None, s.name)]
